@@ -1,0 +1,24 @@
+//go:build verif
+
+// Contracts for package pogs (C19): the bounds check that guards every field access.
+package pogs
+
+//@ import "capnproto.org/go/capnp/v3/internal/schema"
+
+// A field of the given type in slot `off` (in units of the field's own size) lies inside a struct
+// of size sz exactly when the check says so - for every slot offset a data section can have.
+//@ func isFieldInBounds -> r
+//@   props C19
+//@   -- PARTIAL: only the postconditions are decided (the inlined schema accessor t.Which() carries
+//@   -- preconditions about the schema message that cannot be stated from this package)
+//@   partial post
+//@   requires off <= 1<<22
+//@   ensures implies(t.Which() == schema.Type_Which_void, r)
+//@   ensures implies(t.Which() == schema.Type_Which_bool, r == (M(sz.DataSize) >= M(off)/8+1))
+//@   ensures implies(t.Which() == schema.Type_Which_int8 || t.Which() == schema.Type_Which_uint8, r == (M(sz.DataSize) >= M(off)+1))
+//@   ensures implies(t.Which() == schema.Type_Which_int16 || t.Which() == schema.Type_Which_uint16 || t.Which() == schema.Type_Which_enum, r == (M(sz.DataSize) >= (M(off)+1)*2))
+//@   ensures implies(t.Which() == schema.Type_Which_int32 || t.Which() == schema.Type_Which_uint32 || t.Which() == schema.Type_Which_float32, r == (M(sz.DataSize) >= (M(off)+1)*4))
+//@   ensures implies(t.Which() == schema.Type_Which_int64 || t.Which() == schema.Type_Which_uint64 || t.Which() == schema.Type_Which_float64, r == (M(sz.DataSize) >= (M(off)+1)*8))
+//@   ensures ptr: implies(off < 65535 && (t.Which() == schema.Type_Which_text || t.Which() == schema.Type_Which_data || t.Which() == schema.Type_Which_list || t.Which() == schema.Type_Which_structType || t.Which() == schema.Type_Which_interface || t.Which() == schema.Type_Which_anyPointer),
+//@     r == (M(sz.PointerCount) >= M(off)+1))
+
